@@ -116,6 +116,10 @@ def ldap_moddn(mid, dn):
     return ldap_msg(mid, tlv(0x6c, tlv(0x04, dn.encode()) + tlv(0x04, b"cn=new") + tlv(0x01, b"\xff")))
 
 
+def ldap_starttls(mid):
+    return ldap_msg(mid, tlv(0x77, tlv(0x80, b"1.3.6.1.4.1.1466.20037")))
+
+
 def ldap_unbind(mid):
     return ldap_msg(mid, tlv(0x42, b""))
 
@@ -371,7 +375,11 @@ C04 = {
     "ldap": {"greet": ("none", ""), "streams": [
         [rq(ldap_bind(1, "cn=root,dc=x", "pw"), ev=[{"ldap.message-id": 1, "ldap.request-type": "bind", "ldap.username": "root", "ldap.password": "pw"}]),
          rq(ldap_search(2, "dc=example,dc=com", "uid", "bob"), ev=[{"ldap.message-id": 2, "ldap.request-type": "search", "ldap.search-filtervalue": "bob"}]),
-         rq(ldap_add(3, "cn=n,dc=x"), ev=[{"ldap.message-id": 3, "ldap.request-type": "add"}])]],
+         rq(ldap_add(3, "cn=n,dc=x"), ev=[{"ldap.message-id": 3, "ldap.request-type": "add"}])],
+        # the last request asks for TLS; the client then ends its stream instead of starting a handshake: the request was complete
+        [rq(ldap_bind(1, "cn=admin,dc=x", "pw2"), ev=[{"ldap.message-id": 1, "ldap.request-type": "bind", "ldap.username": "admin", "ldap.password": "pw2"}]),
+         rq(ldap_compare(2, "cn=n,dc=x"), ev=[{"ldap.message-id": 2, "ldap.request-type": "compare"}]),
+         rq(ldap_starttls(3), ev=[{"ldap.message-id": 3, "ldap.request-type": "extended.tls"}])]],
         "keys": ["ldap.message-id", "ldap.request-type", "ldap.username", "ldap.password", "ldap.search-filtervalue"]},
     "elasticsearch": {"greet": ("none", ""), "one": True, "streams": [
         [rq(http_post("/_search", _es), _es, ev=[{"http.method": "POST", "http.url": "/_search", "payload": _es.decode()}])]],
